@@ -21,7 +21,7 @@ SPEC = {
     "assumptions": ["vlib/langspec.py stack signatures ('certain' entries)", "vlib/cfg.py forced-branch exploration (calibrated on all golden TEAL)",
                     "vlib/avm.py sanitizers"],
     "min_evaluations": {"quick": 8000, "thorough": 60000},
-    "must_reach": ["abstract_ok", "forced_branches", "routines_analysed", "concrete_runs", "frame_routines", "src_catalogue", "src_recipe", "src_abi", "src_router", "src_corpus", "src_suite", "typed_join_rejected", "statement_position_rejected"],
+    "must_reach": ["abstract_ok", "forced_branches", "routines_analysed", "concrete_runs", "frame_routines", "src_catalogue", "src_recipe", "src_abi", "src_router", "src_corpus", "src_suite", "typed_join_rejected", "statement_position_rejected", "typed_store_rejected_frame", "typed_store_rejected_scratch"],
     "shard_timeout": {"quick": 2400, "thorough": 14400},
 }
 
@@ -139,6 +139,7 @@ def run_shard(shard):
         history_probe(pt, acc, seen, v)
     typed_join_probes(pt, acc, seen, rng, 60 if shard["tier"] == "quick" else 400)
     statement_position_probes(pt, acc, seen, rng, 60 if shard["tier"] == "quick" else 400)
+    typed_store_probes(pt, acc, seen, rng, 60 if shard["tier"] == "quick" else 400)
     return acc.result()
 
 
@@ -315,6 +316,91 @@ def statement_position_probes(pt, acc, seen, rng, n):
         acc.evaluations += 1
         acc.counters["statement_position_accepted"] += 1
         judge_text(acc, "statement_position_probe", "app", version, teal, case, seen, anytype=True)
+
+
+def typed_store_probes(pt, acc, seen, rng, n):
+    """A value of the wrong concrete type written into an ABI value through the entry points that rely on the backing storage for
+    their type check (decode(expr), set(expr) on Address/StaticBytes/String/uints), with the ABI value backed by a scratch slot (main
+    routine, subroutine below v8 or with frame pointers off) and by a frame cell (subroutine under frame pointers).  The constructor
+    has to reject it in every configuration, or else the emitted program has to be type-safe (abstract run with types on + a
+    concrete run)."""
+    from typing import Literal
+    from .. import avm
+    from ..common import PT_ERRORS, reset_globals
+    I, B = pt.Int, pt.Bytes
+    abi = pt.abi
+    for _ in range(n):
+        reset_globals()
+        kind = rng.choice(["tuple_decode", "dynarray_decode", "staticarray_decode", "address_set", "staticbytes_set", "string_set", "uint64_set", "bool_set", "string_decode"])
+        where = rng.choice(["main", "sub", "sub", "abisub"])
+        version = rng.choice([6, 7, 8, 8, 9, 10])
+        fp = rng.choice([None, None, False]) if version >= 8 else None
+        case = {"source": "typed_store_probe", "kind": kind, "where": where, "version": version, "fp": fp}
+        wrong_u = pt.Len(pt.Txn.application_args[0])          # a uint64 where bytes are required
+        wrong_b = pt.Concat(pt.Txn.application_args[0], B("z"))  # bytes where a uint64 is required
+
+        def write():
+            if kind == "tuple_decode":
+                x = abi.make(abi.Tuple2[abi.Uint64, abi.Uint64])
+                return x, x.decode(wrong_u), pt.Len(x.encode())
+            if kind == "dynarray_decode":
+                x = abi.make(abi.DynamicArray[abi.Uint16])
+                return x, x.decode(wrong_u), x.length()
+            if kind == "staticarray_decode":
+                x = abi.make(abi.StaticArray[abi.Uint8, Literal[4]])
+                return x, x.decode(wrong_u), pt.Len(x.encode())
+            if kind == "string_decode":
+                x = abi.String()
+                return x, x.decode(wrong_u), pt.Len(x.get())
+            if kind == "address_set":
+                x = abi.Address()
+                return x, x.set(wrong_u), pt.Len(x.get())
+            if kind == "staticbytes_set":
+                x = abi.make(abi.StaticBytes[Literal[8]])
+                return x, x.set(wrong_u), pt.Len(x.get())
+            if kind == "string_set":
+                x = abi.String()
+                return x, x.set(wrong_u), pt.Len(x.get())
+            if kind == "uint64_set":
+                x = abi.Uint64()
+                return x, x.set(wrong_b), x.get() + I(1)
+            x = abi.Bool()
+            return x, x.set(wrong_b), x.get() + I(1)
+        try:
+            if where == "main":
+                x, w, use = write()
+                prog = pt.Seq(w, pt.Pop(use), I(1))
+            elif where == "sub":
+                @pt.Subroutine(pt.TealType.uint64)
+                def inner(a):
+                    x, w, use = write()
+                    return pt.Seq(w, use + a)
+                prog = pt.Seq(pt.Pop(inner(I(3))), I(1))
+            else:
+                @pt.ABIReturnSubroutine
+                def inner_abi(a: abi.Uint64, *, output: abi.Uint64):
+                    x, w, use = write()
+                    return pt.Seq(w, output.set(use + a.get()))
+                arg, res = abi.Uint64(), abi.Uint64()
+                prog = pt.Seq(arg.set(3), inner_abi(arg).store_into(res), pt.Pop(res.get()), I(1))
+            opts = None if fp is None else pt.OptimizeOptions(frame_pointers=fp)
+            teal = pt.compileTeal(prog, pt.Mode.Application, version=version, optimize=opts)
+        except PT_ERRORS:
+            acc.counters["typed_store_rejected"] += 1
+            acc.counters["typed_store_rejected_" + ("frame" if where != "main" and version >= 8 and fp is not False else "scratch")] += 1
+            continue
+        except Exception as e2:
+            acc.counters["typed_store_crashed:" + type(e2).__name__] += 1
+            continue
+        acc.evaluations += 1
+        acc.counters["typed_store_accepted"] += 1
+        p = judge_text(acc, "typed_store_probe", "app", version, teal, case, seen)
+        if p is None:
+            continue
+        r = avm.run(p, avm.Ctx(group=[{"ApplicationArgs": [b"\x00" * 40]}]))
+        acc.counters["concrete_runs"] += 1
+        if r.status == "fail" and r.error_kind == "type":
+            acc.violation("runtime_discipline", case, "a value of the wrong concrete type was accepted by %s (%s, v%d, frame_pointers=%s) and the program fails with %s" % (kind, where, version, fp, r.error), teal=teal[-800:])
 
 
 def check_recipe(acc, probe, recipe, v, mode, opts, ctxs, seen):
